@@ -44,6 +44,12 @@ pub fn sources() -> Vec<Src> {
             }
         }
     }
+    // programs whose image ends around the top of user space and of memory: the assembler has no
+    // opinion on where a program is loaded, so all of them assemble (loading may fail later)
+    for (orig, n) in [(0xFD00u32, 0x2FEu32), (0xFD00, 0x2FF), (0xFD00, 0x300), (0xFDF0, 0x10), (0xFF00, 0xFD), (0xFF00, 0xFE), (0xFF00, 0xFF), (0xFF00, 0x100), (0xFFFE, 1), (0xFFFF, 0), (0xFFFF, 1), (0x0000, 0xFFFD), (0x0000, 0xFFFE), (0x0001, 0xFFFE)] {
+        let text = format!(".orig x{orig:04X}\nhalt\n.blkw x{n:X}\n");
+        v.push(Src { name: format!("top-x{orig:04X}-{n:X}"), text, class: "valid-near-top-of-memory" });
+    }
     for (i, t) in ["push r0\nhalt", "pop r1\nhalt", "f rets\ncall f", "rets", "PUSH R0", "Call x\nx rets"].iter().enumerate() {
         v.push(Src { name: format!("stack{i}"), text: t.to_string(), class: "valid-stack" });
     }
@@ -94,7 +100,8 @@ pub fn run(ctx: &Ctx) -> i32 {
         // `run` judged only on assembling: a valid program may still exit non-zero at run time.
         // The assembling verdict of `run` is visible in its stdout: it prints "Running" only after
         // a successful assembly.
-        let run_assembled = run.out().contains("Running");
+        // (a loader refusal - the image does not fit in memory - comes after a successful assembly)
+        let run_assembled = run.out().contains("Running") || run.err().contains("exception:");
         let compile_ok = compile.status == 0;
         if let Some(c) = &check {
             let check_ok = c.status == 0;
@@ -178,7 +185,7 @@ pub fn run(ctx: &Ctx) -> i32 {
         ctx,
         acc,
         Level { category: "model_checking", bfs: None },
-        "exhaustive configuration enumeration against the real binary: every source of a 140-source corpus (valid seeds; lexer / parser / backpatch errors; for each of the 8 PC-relative kinds an out-of-range label reference one beyond the field limit, forwards and backwards, at every statement position 0..4, and the in-range neighbour; sources using push / pop / call / rets) x feature setting {none, -f stack} x {check, compile, run}. Each run is classified success / diagnostic / crash; a crash is a violation; check success <=> compile success; compile success <=> run gets past assembling. Part B drives the real `lace watch`: every sequence of up to 2 (thorough 3) saves over 6 file contents (valid; undefined label after labels were recorded; valid with the same label names elsewhere; using labels it does not define; lexer error; emission-only error), and after each save the verdict of the re-check must equal `lace check` on that content (an unobserved event is inconclusive). non-trivial = (source, flag) pairs on which the three commands agree + watch sequences whose every re-check agreed",
+        "exhaustive configuration enumeration against the real binary: every source of a 140-source corpus (valid seeds; lexer / parser / backpatch errors; for each of the 8 PC-relative kinds an out-of-range label reference one beyond the field limit, forwards and backwards, at every statement position 0..4, and the in-range neighbour; sources using push / pop / call / rets; programs ending around the top of user space and of memory) x feature setting {none, -f stack} x {check, compile, run}. Each run is classified success / diagnostic / crash; a crash is a violation; check success <=> compile success; compile success <=> run gets past assembling. Part B drives the real `lace watch`: every sequence of up to 2 (thorough 3) saves over 6 file contents (valid; undefined label after labels were recorded; valid with the same label names elsewhere; using labels it does not define; lexer error; emission-only error), and after each save the verdict of the re-check must equal `lace check` on that content (an unobserved event is inconclusive). non-trivial = (source, flag) pairs on which the three commands agree + watch sequences whose every re-check agreed",
         true,
         &["all-accept", "all-reject", "emission-only-error-rejected-by-all"],
         &["`lace watch` is driven through the file system; inotify event timing is outside the claim: unobserved re-checks are counted as inconclusive"],
